@@ -217,6 +217,32 @@ GRAPH_BAD = [["gnd", "4", "4"], ["gnd", "5", "3"], ["gnm", "3", "9"], ["complete
              ["complete", "4", "save", "kthlist", "/nonexistent-dir/x"], ["gnd", "0", "0"], ["gnm", "0", "0"]]
 
 
+ODD_NAMES = ["brace{x}", "brace{1}", "b{}", "{0}{1}", "pc%s%d", "a b", "q'uo\"te", "\u00e9\u03bb", "$HOME", "back\\slash", "c{x!r:>{w}}", "star*"]
+_ODD = {}
+
+
+def odd_graph_files():
+    """one small graph file per graph type and odd name, in the scratch directory of this run"""
+    if not _ODD:
+        d = iolib_tmpdir()
+        texts = {"simple": ("kthlist", "4\n1 : 2 3 0\n2 : 1 3 4 0\n3 : 1 2 0\n4 : 2 0\n"),
+                 "dag": ("kthlist", "4\n1 : 0\n2 : 1 0\n3 : 1 2 0\n4 : 3 0\n"),
+                 "bipartite": ("matrix", "3 4\n1 1 0 0\n0 1 1 0\n1 0 1 1\n")}
+        for gt, (ext, text) in texts.items():
+            _ODD[gt] = []
+            for nm in ODD_NAMES:
+                pth = os.path.join(d, gt + "-" + nm + "." + ext)
+                with open(pth, "w") as fh:
+                    fh.write(text)
+                _ODD[gt].append(pth)
+    return _ODD
+
+
+def iolib_tmpdir():
+    from harness import iolib
+    return iolib.tmpdir()
+
+
 def gen_argv(rng, helpers_spec, tier):
     """argv lists from the shape of each sub-command: numeric arguments at and around their bounds"""
     out = []
@@ -263,6 +289,19 @@ def gen_argv(rng, helpers_spec, tier):
             out.append([name] + pre + g)
         out.append([name] + pre)
         out.append([name] + ["x"] + GRAPH_OK[gt][0])
+    # readable graph files whose names contain characters with a meaning for str.format / % / the shell (always;
+    # seeded change C18-6): every graph-taking sub-command, with and without an explicit format
+    odd = odd_graph_files()
+    gcmd2 = dict(gcmd, op=("simple", []), tseitin=("simple", ["random"]), subsetcard=("bipartite", []))
+    for name, (gt, pre) in gcmd2.items():
+        paths = odd[gt] if tier != "quick" else rng.sample(odd[gt], 5)
+        for pth in paths:
+            out.append([name] + pre + [pth])
+        out.append([name] + pre + [{"simple": "kthlist", "dag": "kthlist", "bipartite": "matrix"}[gt], odd[gt][0]])
+    out.append(["iso", odd["simple"][0], "-e", odd["simple"][1]])
+    out.append(["op", odd["simple"][0], "--knuth2"])
+    out.append(["op", odd["simple"][2], "--knuth3"])
+    out.append(["stone", "2", odd["dag"][0], "--sparse", "2"])
     out += [["iso", "complete", "3", "-e", "complete", "3"], ["iso", "complete", "3", "-e"], ["subgraph", "-G", "complete", "4", "-H", "complete", "2"],
             ["subgraph", "-G", "complete", "4"], ["stone", "2", "pyramid", "1", "--sparse", "1"], ["stone", "2", "pyramid", "1", "--sparse", "3"],
             ["stone", "0", "pyramid", "1"]]
